@@ -60,9 +60,11 @@ def pred_pool(depth, wide=False):
         nr = [("plit", False), ("gt", A, K), ("not", ("plit", True)), ("not", ("gt", A, K)), ("and",), ("or",),
               ("and", ("plit", False), ("gt", A, K)), ("or", ("plit", True), ("gt", A, K)),
               ("and", ("gt", A, K), ("eq", A, B)), ("or", ("gt", A, K), ("pref", "a")), ("and", ("plit", True)),
-              ("or", ("plit", False))]
+              ("or", ("plit", False)),
+              # foldable operands that still *read* a column when evaluated (the constant comes last)
+              ("and", ("gt", A, K), ("plit", False)), ("or", ("eq", A, B), ("plit", True))]
         if d >= 1:
-            nr = nr[:8] + [("not", ("and", ("plit", False), ("gt", A, K))), ("not", ("or",)), ("and", ("or",), ("gt", A, K)),
+            nr = nr[:8] + nr[12:] + [("not", ("and", ("plit", False), ("gt", A, K))), ("not", ("or",)), ("and", ("or",), ("gt", A, K)),
                            ("or", ("and",), ("eq", A, B))]
         reps.append(nr)
     return pools[-1]
